@@ -268,6 +268,68 @@ func TestC04(t *testing.T) {
 			c.c04Program(s, "rand-reentrant-recursion", src, true, "reentrant-recursion")
 		})
 
+		// nil unless a ফেরত ran: the last thing a body did may have been anything — an assignment, a call that
+		// returned something, a bare value, a declaration — at any depth of nesting, and an unused ফেরত may sit on
+		// another path; the call's value is printed, compared with nil, stored and passed on
+		c.Rapid("falls-off-the-end", n/2, func(rt *rapid.T, s *Sub) {
+			P, V, F, R := bn.KwPrint, bn.KwVar, bn.KwFun, bn.KwReturn
+			var b strings.Builder
+			b.WriteString(V + " g = 0;\n" + V + " arr = [1, 2];\n" + V + " obj = {p: 1};\n" + F + " seven() { " + R + " 7; }\n" + F + " same(v) { " + R + " v; }\n")
+			lasts := []string{"g = g + 1;", "7;", "\"s\";", "seven();", "seven;", "obj.p = 5;", "arr[0] = 6;", "[1, 2];", "({k: 1});", "g == g;", bn.KwTrue + ";",
+				V + " loc = 9;", "same(same);", "g = seven();", "-g;", "nil;", P + " \"shown\";", F + " inner() { " + R + " 3; }", bn.BLen + "(arr);", "g = [g];"}
+			var nest func(ind string, d int) string
+			nest = func(ind string, d int) string {
+				last := ind + rapid.SampledFrom(lasts).Draw(rt, "last") + "\n"
+				if d < 0 { // the unbraced body of a branch: a statement, not a declaration
+					for strings.HasPrefix(strings.TrimSpace(last), V+" ") || strings.HasPrefix(strings.TrimSpace(last), F+" ") {
+						last = ind + rapid.SampledFrom(lasts).Draw(rt, "lastStatement") + "\n"
+					}
+				}
+				if d <= 0 {
+					return last
+				}
+				inner := nest(ind+"  ", d-1)
+				switch rapid.IntRange(0, 7).Draw(rt, "nest") {
+				case 0:
+					return ind + "{\n" + inner + ind + "}\n"
+				case 1:
+					return ind + bn.KwIf + " (" + bn.KwTrue + ") {\n" + inner + ind + "}\n"
+				case 2:
+					return ind + bn.KwIf + " (" + bn.KwFalse + ") { " + R + " \"never\"; } " + bn.KwElse + " {\n" + inner + ind + "}\n"
+				case 3:
+					return ind + V + " once = 0;\n" + ind + bn.KwWhile + " (once < 1) {\n" + ind + "  once = once + 1;\n" + inner + ind + "}\n"
+				case 4:
+					return ind + bn.KwFor + " (" + V + " i = 0; i < 2; i = i + 1) {\n" + inner + ind + "}\n"
+				case 5:
+					return ind + bn.KwIf + " (" + bn.KwTrue + ")\n" + nest(ind+"  ", -1)
+				case 6:
+					return ind + bn.KwWhile + " (" + bn.KwTrue + ") {\n" + inner + ind + "  " + bn.KwBreak + ";\n" + ind + "}\n"
+				default:
+					return ind + P + " \"first\";\n" + inner
+				}
+			}
+			nf := rapid.IntRange(1, 3).Draw(rt, "functions")
+			for k := 0; k < nf; k++ {
+				fmt.Fprintf(&b, "%s f%d(flag) {\n", F, k)
+				if rapid.Bool().Draw(rt, "returnOnOtherPath") {
+					fmt.Fprintf(&b, "  %s (flag) { %s \"yes\"; }\n", bn.KwIf, R)
+				}
+				b.WriteString(nest("  ", rapid.IntRange(0, 3).Draw(rt, "depth")))
+				b.WriteString("}\n")
+			}
+			for k := 0; k < nf; k++ {
+				call := fmt.Sprintf("f%d(%s)", k, bn.KwFalse)
+				uses := []string{P + " " + call + ";", P + " " + call + " == nil;", P + " [" + call + "];", V + fmt.Sprintf(" r%d = ", k) + call + ";\n" + P + fmt.Sprintf(" r%d;", k),
+					P + " same(" + call + ");", P + " " + call + " " + bn.KwOr + " \"was falsy\";", P + " {v: " + call + "}.v;", P + fmt.Sprintf(" f%d(%s);", k, bn.KwTrue)}
+				m := rapid.IntRange(1, 3).Draw(rt, "uses")
+				for j := 0; j < m; j++ {
+					b.WriteString(rapid.SampledFrom(uses).Draw(rt, "use") + "\n")
+				}
+			}
+			b.WriteString(P + " g;\n")
+			c.c04Program(s, "falls-off-the-end", place(b.String(), drawPlacement(rt)), true, "falls-off-the-end")
+		})
+
 		// arguments are bound to the parameters whatever the parameters are called: like the function itself,
 		// like a sibling, like a built-in, like a global
 		c.Rapid("parameters-with-coinciding-names", n/8, func(rt *rapid.T, s *Sub) {
